@@ -349,7 +349,7 @@ fn run_program(p: &Program, exp_main: &[Vec<Option<String>>], exp_threads: &[Vec
     }
 }
 
-fn explore(path: &str, bound: usize) -> ExitCode {
+fn explore(path: &str, bound: usize, max_perms: usize) -> ExitCode {
     let Ok(bytes) = std::fs::read(path) else { return ExitCode::from(2) };
     let Ok(doc) = serde_json::from_slice::<Value>(&bytes) else { return ExitCode::from(2) };
     let case = doc.get("case").cloned().unwrap_or(doc);
@@ -376,6 +376,9 @@ fn explore(path: &str, bound: usize) -> ExitCode {
         let mut b = loom::model::Builder::new();
         b.preemption_bound = Some(bound);
         b.max_branches = 200_000;
+        // a few generated programs have millions of schedules: exploration is cut (deterministically) after
+        // this many executions; such a program counts as partly explored, never as a violation
+        b.max_permutations = Some(max_perms);
         b.check(move || run_program(&p, &exp_main, &exp_threads));
     }));
     let execs = EXECUTIONS.load(Ordering::Relaxed);
@@ -413,7 +416,8 @@ struct ChildResult {
 }
 
 fn run_child(exe: &std::path::Path, file: &std::path::Path, bound: usize) -> ChildResult {
-    let out = Command::new(exe).arg("explore").arg(file).arg(bound.to_string()).stdout(Stdio::piped()).stderr(Stdio::piped()).output();
+    let max_perms = if bound >= 3 { 60_000 } else { 20_000 };
+    let out = Command::new(exe).arg("explore").arg(file).arg(bound.to_string()).arg(max_perms.to_string()).stdout(Stdio::piped()).stderr(Stdio::piped()).output();
     match out {
         Err(e) => ChildResult { ok: true, skipped: true, executions: 0, detail: format!("spawn failed: {e}") },
         Ok(o) => {
@@ -482,7 +486,7 @@ fn digest(p: &Program) -> u64 {
 fn check(tier: &str, seed: u64) -> ExitCode {
     let t0 = std::time::Instant::now();
     let thorough = tier == "thorough";
-    let (cases, max_threads, max_ops, bound) = if thorough { (2400u32, 3usize, 6usize, 3usize) } else { (400u32, 2, 4, 2) };
+    let (cases, max_threads, max_ops, bound) = if thorough { (600u32, 3usize, 5usize, 3usize) } else { (400u32, 2, 4, 2) };
     let exe = std::env::current_exe().unwrap();
     let work = verif_dir().join("work").join("C04");
     let _ = std::fs::create_dir_all(&work);
@@ -490,13 +494,14 @@ fn check(tier: &str, seed: u64) -> ExitCode {
     struct Tot {
         programs: u64,
         skipped: u64,
+        truncated: u64,
         executions: u64,
         distinct: HashSet<u64>,
         classes: BTreeMap<String, u64>,
         samples: Vec<Value>,
         violation: Option<(Program, String)>,
     }
-    let tot = Mutex::new(Tot { programs: 0, skipped: 0, executions: 0, distinct: HashSet::new(), classes: BTreeMap::new(), samples: vec![], violation: None });
+    let tot = Mutex::new(Tot { programs: 0, skipped: 0, truncated: 0, executions: 0, distinct: HashSet::new(), classes: BTreeMap::new(), samples: vec![], violation: None });
     std::thread::scope(|sc| {
         for shard in 0..SHARDS {
             let (stop, tot, exe, work) = (&stop, &tot, &exe, &work);
@@ -522,6 +527,9 @@ fn check(tier: &str, seed: u64) -> ExitCode {
                         let mut t = tot.lock().unwrap();
                         t.programs += 1;
                         t.executions += r.executions;
+                        if r.executions >= if bound >= 3 { 60_000 } else { 20_000 } {
+                            t.truncated += 1;
+                        }
                         if r.skipped {
                             t.skipped += 1;
                         } else if r.ok && nontrivial(&p) {
@@ -579,6 +587,7 @@ fn check(tier: &str, seed: u64) -> ExitCode {
             "programs": t.programs,
             "schedules_explored": t.executions,
             "skipped_too_large": t.skipped,
+            "exploration_cut_at_execution_limit": t.truncated,
             "classes": t.classes,
             "excluded_by_known_finding": 0,
         },
@@ -604,7 +613,7 @@ fn main() -> ExitCode {
     let args: Vec<String> = std::env::args().collect();
     let seed: u64 = std::env::var("VERIF_SEED").ok().and_then(|s| s.parse().ok()).unwrap_or(0);
     match args.get(1).map(|s| s.as_str()) {
-        Some("explore") => explore(&args[2], args.get(3).and_then(|s| s.parse().ok()).unwrap_or(2)),
+        Some("explore") => explore(&args[2], args.get(3).and_then(|s| s.parse().ok()).unwrap_or(2), args.get(4).and_then(|s| s.parse().ok()).unwrap_or(20_000)),
         Some("check") => {
             let tier = args.iter().position(|a| a == "--tier").and_then(|i| args.get(i + 1)).map(|s| s.as_str()).unwrap_or("quick");
             check(tier, seed)
